@@ -182,13 +182,14 @@ static struct bytes parse_bytes(const char *tok) {
 
 /* clock seam: fileset.c is compiled with -Dclock_gettime=vs_clock_gettime */
 static long clock_secs = -1;
+static long clock_base = 0;	/* added to the seconds handed to the library (times around 2^31 and 2^32); events report the script's seconds */
 static long clock_nsec = 0;
 static long clock_reads = 0;
 int vs_clock_gettime(clockid_t id, struct timespec *ts);
 int vs_clock_gettime(clockid_t id, struct timespec *ts) {
 	if (clock_secs < 0) return clock_gettime(id, ts);
 	__atomic_add_fetch(&clock_reads, 1, __ATOMIC_SEQ_CST);
-	ts->tv_sec = clock_secs;
+	ts->tv_sec = clock_base + clock_secs;
 	ts->tv_nsec = __atomic_add_fetch(&clock_nsec, 1, __ATOMIC_SEQ_CST);
 	return 0;
 }
@@ -579,14 +580,16 @@ static void run_line(char *line) {
 		mtbl_threadpool_destroy(&pools[p]);
 		sb_printf(&s, "{\"e\":\"PoolDestroy\",\"p\":%d}", p);
 	} else if (!strcmp(op, "w_init")) {
-		/* w_init W path comp level bs ri pool prefixlen [fd] */
+		/* w_init W path comp level bs ri pool prefixlen [fd]      comp = "nullopt": the options argument is NULL (all defaults) */
 		int w = IARG(1);
 		struct mtbl_writer_options *o = mtbl_writer_options_init();
-		if (strcmp(ARG(3), "default")) mtbl_writer_options_set_compression(o, comp_of(ARG(3)));
-		if (strcmp(ARG(4), "default")) mtbl_writer_options_set_compression_level(o, (int)IARG(4));
-		if (strcmp(ARG(5), "default")) mtbl_writer_options_set_block_size(o, (size_t)IARG(5));
-		if (strcmp(ARG(6), "default")) mtbl_writer_options_set_block_restart_interval(o, (size_t)IARG(6));
-		if (IARG(7) >= 0) mtbl_writer_options_set_threadpool(o, pools[IARG(7)]);
+		bool nullopt = !strcmp(ARG(3), "nullopt");
+		if (nullopt) { mtbl_writer_options_destroy(&o); tok[3] = (char *)"default"; }
+		if (!nullopt && strcmp(ARG(3), "default")) mtbl_writer_options_set_compression(o, comp_of(ARG(3)));
+		if (!nullopt && strcmp(ARG(4), "default")) mtbl_writer_options_set_compression_level(o, (int)IARG(4));
+		if (!nullopt && strcmp(ARG(5), "default")) mtbl_writer_options_set_block_size(o, (size_t)IARG(5));
+		if (!nullopt && strcmp(ARG(6), "default")) mtbl_writer_options_set_block_restart_interval(o, (size_t)IARG(6));
+		if (!nullopt && IARG(7) >= 0) mtbl_writer_options_set_threadpool(o, pools[IARG(7)]);
 		long long plen = atoll(ARG(8));
 		if (plen > 0 || (nt > 9 && (!strcmp(ARG(9), "fd") || !strcmp(ARG(9), "sparse")))) {
 			int fd = open(ARG(2), O_WRONLY | O_CREAT | O_EXCL, 0644);
@@ -629,11 +632,14 @@ static void run_line(char *line) {
 		writers[w] = NULL;
 		sb_printf(&s, "{\"e\":\"WClose\",\"w\":%d}", w);
 	} else if (!strcmp(op, "r_init")) {
-		/* r_init R path verify madvise [fd] */
+		/* r_init R path verify madvise [fd]      verify = "nullopt": the options argument is NULL (all defaults) */
 		int r = IARG(1);
 		struct mtbl_reader_options *o = mtbl_reader_options_init();
-		mtbl_reader_options_set_verify_checksums(o, IARG(3) != 0);
-		mtbl_reader_options_set_madvise_random(o, IARG(4) != 0);
+		if (!strcmp(ARG(3), "nullopt")) mtbl_reader_options_destroy(&o);
+		else {
+			mtbl_reader_options_set_verify_checksums(o, IARG(3) != 0);
+			mtbl_reader_options_set_madvise_random(o, IARG(4) != 0);
+		}
 		if (nt > 5 && !strcmp(ARG(5), "fd")) {
 			int fd = open(ARG(2), O_RDONLY);
 			readers[r] = fd >= 0 ? mtbl_reader_init_fd(fd, o) : NULL;
@@ -882,6 +888,9 @@ static void run_line(char *line) {
 		int f = IARG(1);
 		mtbl_fileset_destroy(&filesets[f]);
 		sb_printf(&s, "{\"e\":\"FsDestroy\",\"f\":%d}", f);
+	} else if (!strcmp(op, "clockbase")) {
+		clock_base = atol(ARG(1));
+		return;
 	} else if (!strcmp(op, "clock")) {
 		clock_secs = IARG(1);
 		sb_printf(&s, "{\"e\":\"Clock\",\"t\":%ld}", clock_secs);
